@@ -122,6 +122,9 @@ def enabled_steps(w, c):
             s = w.sched[i]
             if any(e[0] <= w.lib_utils.utc_now_sec() for e in s._heap):
                 out.append({'a': 'Dispatch', 'i': i})
+            elif s._heap:
+                # nothing is due: the dispatcher may still be woken (a notify by another schedule() call, a spurious wake-up)
+                out.append({'a': 'Wake', 'i': i})
         for (ii, j), g in w.mem.items():
             if ii == i and not g.done and g.at is not None:
                 out.append({'a': {'capture': 'MemCapture', 'invoke': 'MemInvoke', 'delete': 'MemDelete'}[g.at[0]], 'i': i, 'j': j})
@@ -150,7 +153,7 @@ def apply_step(w, e):
     if a == 'Crash':
         w.crash(e['i'])
         return e
-    if a == 'Dispatch':
+    if a in ('Dispatch', 'Wake'):
         w.dispatch(e['i'])
         return e
     if a in ('MemCapture', 'MemInvoke', 'MemDelete'):
